@@ -60,12 +60,12 @@ def subdir(name):
 # --------------------------------------------------------------------------------------------------
 # object history (a dimension every model scenario carries)
 # --------------------------------------------------------------------------------------------------
-HISTORIES = [[], [], [], [], [], ["reload"], ["deepcopy"], ["prepredict"], ["refit"], ["prepredict", "reload"], ["get_distances"], ["get_distances_norm", "deepcopy"]]
+HISTORIES = [[], [], [], [], [], ["reload"], ["deepcopy"], ["prepredict"], ["refit"], ["prepredict", "reload"], ["get_distances"], ["get_distances_norm", "deepcopy"], ["stale_matrix"], ["stale_matrix", "prepredict"]]
 
 
 def derive_history(scn):
     """The properties speak about 'a fitted model', whatever its past: half of all scenarios use a fresh object, the others
-    one that was fitted twice, has already predicted, was asked for its distance matrix, was deep-copied, or went through
+    one that was fitted twice, has already predicted, was asked for its distance matrix, carries a stale matrix with pre-computed distances switched off, was deep-copied, or went through
     save -> load into a freshly constructed object.  The choice is a function of the scenario's content (no random stream is consumed; replay files carry it)."""
     if "history" not in scn:
         key = json.dumps([scn.get("kind"), scn.get("mode"), scn.get("metric"), scn.get("I_train"), scn.get("Y"), scn.get("Q"), scn.get("U")], sort_keys=True)
@@ -75,6 +75,16 @@ def derive_history(scn):
             hist = [x for x in hist if x != "reload"]
         scn["history"] = hist
     return scn["history"]
+
+
+def attach_stale_matrix(model, n):
+    """History step 'stale_matrix' (feature-distance scenarios only): a distance matrix is attached to the object while
+    pre-computed distances are switched off - as after constructing on a file and switching back, or assigning pre_distances
+    without enabling the flag.  With the flag off the matrix is not part of the model: nothing may read it."""
+    import numpy as np
+
+    model.pre_distances = np.random.default_rng(12345).random((max(n, 1), max(n, 1))) * 3.0
+    model.pre_computed_distance = False
 
 
 def apply_history_step(model, step):
@@ -118,13 +128,12 @@ def derive_presentation(scn):
 
 def present_values(A, how, matrix=False):
     """dtype part of a presentation (applied to the whole data set, so that the harness evaluates the metric on the same values).
-    A pre-computed distance matrix keeps float64: with a float32 matrix the costs become numpy.float32 scalars, which Node.cost's
-    type check rejects with the library's TypeError - input validation of an unsupported dtype, not a statement of any property."""
+    (float32 matrices and float32 data under jaccard made fit() raise a TypeError in Node.cost until the repair 028351f.)"""
     import numpy as np
 
     A = np.array(A, dtype=float)
-    if matrix:
-        return A
+    if matrix and how == "int":
+        how = "f32"
     if how == "int":
         if A.size and np.all(A == np.round(A)) and np.all(np.abs(A) < 2 ** 31):
             return A.astype(np.int64)
